@@ -1882,6 +1882,49 @@ def restore_guard_arms(fnode, bsrc, stats):
   ast.fix_missing_locations(fnode)
 
 
+def strip_bool_in_tests(tree, stats):
+  """`bool(E)` in a truth context (the test of an if / while / conditional expression, an operand of not / and / or there) is `E`."""
+  def strip(e):
+    if isinstance(e, ast.Call) and isinstance(e.func, ast.Name) and e.func.id == 'bool' and len(e.args) == 1 and not e.keywords and not isinstance(e.args[0], ast.Starred):
+      stats['bools'] = stats.get('bools', 0) + 1
+      return strip(e.args[0])
+    if isinstance(e, ast.UnaryOp) and isinstance(e.op, ast.Not):
+      e.operand = strip(e.operand)
+    elif isinstance(e, ast.BoolOp):
+      e.values = [strip(v) for v in e.values]
+    return e
+  for n in ast.walk(tree):
+    if isinstance(n, (ast.If, ast.While, ast.IfExp)):
+      n.test = strip(n.test)
+
+
+def inline_direct_nested_calls(fnode, bsrc, stats):
+  """A nested function that is handed on as a callback AND called on the spot (`cb()` as a statement) where the reference function calls no
+  nested function directly: the direct call is the body, written out (parameters take their defaults); the definition stays for the callback use."""
+  nested = dict((n.name, n) for n in fnode.body if isinstance(n, ast.FunctionDef))
+  if not nested:
+    return
+  bnested = set(n.name for n in ast.walk(bsrc) if isinstance(n, ast.FunctionDef) and n is not bsrc)
+  bdirect = set(c.func.id for c in ast.walk(bsrc) if isinstance(c, ast.Call) and isinstance(c.func, ast.Name) and c.func.id in bnested)
+  todo = {}
+  for name, d in nested.items():
+    if name in bdirect or d.decorator_list or any(isinstance(x, (ast.Yield, ast.YieldFrom, ast.Await)) for x in own_nodes(d)):
+      continue
+    a = d.args
+    if a.vararg or a.kwarg or a.kwonlyargs or len(a.defaults) != len(a.posonlyargs + a.args):
+      continue       # every parameter must have a default: the direct call passes nothing
+    direct = [c for c in ast.walk(fnode) if isinstance(c, ast.Call) and isinstance(c.func, ast.Name) and c.func.id == name and not c.args and not c.keywords
+              and not any(c is x for x in ast.walk(d))]
+    refs = [x for x in ast.walk(fnode) if isinstance(x, ast.Name) and x.id == name and isinstance(x.ctx, ast.Load)]
+    if direct and len(refs) > len(direct) and not any(isinstance(x, (ast.Nonlocal, ast.Global)) for x in ast.walk(d)):
+      todo[name] = d
+  if todo:
+    before = stats.get('inlined', 0)
+    _inline_in(fnode, todo, False, None, stats)
+    if stats.get('inlined', 0) != before:
+      stats['direct_nested'] = stats.get('direct_nested', 0) + 1
+
+
 def raise_append_loops(fnode, bsrc, stats):
   """`acc = []` directly followed by `for T in IT: [if C:] acc.append(E)` (nothing else in the loop), in a function whose reference version has
   comprehensions and no such accumulation loop: the comprehension `acc = [E for T in IT if C]` again (the same calls in the same order; the list
@@ -2282,6 +2325,7 @@ def rename_function(fnode, rel, qualname, base_funcs, stats):
     bsrc = base_source_fn(rel, qualname)
     try:
       drop_self_assignments(fnode, stats)
+      strip_bool_in_tests(fnode, stats)
       split_chained_assigns(fnode, base_names, stats)
       rotate_compute_store(fnode, base_names, stats)
       merge_list_extend(fnode, base_names, stats)
@@ -2292,6 +2336,7 @@ def rename_function(fnode, rel, qualname, base_funcs, stats):
       loop_flag_to_break(fnode, base_names, stats)
       if bsrc is not None:
         keywords_to_positional(fnode, bsrc, stats)
+        inline_direct_nested_calls(fnode, bsrc, stats)
         raise_append_loops(fnode, bsrc, stats)
         restore_guard_arms(fnode, bsrc, stats)
         split_isinstance_handlers(fnode, bsrc, stats)
@@ -2339,6 +2384,7 @@ def rename_function(fnode, rel, qualname, base_funcs, stats):
   except Exception as e:
     stats['temps_error'] = repr(e)
   try:
+    strip_bool_in_tests(fnode, stats)
     restore_while_tests(fnode, set(base.get('whiles', [])), stats)
   except Exception as e:
     stats['while_error'] = repr(e)
